@@ -22,6 +22,7 @@ impl TL {
     #[verifier::external_body] pub fn eq_complex(&self, rhs: &TL, flags: &Flags) -> (r: bool) ensures r == compat(*self, *rhs, *flags) { unimplemented!() }
 }
 #[verifier::external_body] pub fn clone_tl(t: &TL) -> (r: TL) ensures r == *t { unimplemented!() }
+impl TL { #[verifier::external_body] pub fn clone(&self) -> (r: TL) ensures r == *self { unimplemented!() } }
 pub uninterp spec fn sigcheck() -> Flags;               // TypecheckFlags::signature_check(): parameter types are compared strictly (no optional leniency)
 #[verifier::external_body] pub fn flags_signature_check() -> (r: Flags) ensures r == sigcheck() { unimplemented!() }
 // function types
@@ -202,12 +203,12 @@ fn main() {{}}
         Obl("C02.compat.list.open-open", ["C02", "C03"], fn="eq_complex_arm_open_open", desc="eq_complex, [T...] vs [U...]: compatible exactly when T and U are"),
         Obl("C02.compat.list.mixed-open", ["C02", "C03"], fn="eq_complex_arm_mixed_open", desc="eq_complex, fixed-shape list vs [T...]: compatible exactly when EVERY slot is compatible with T"),
         Obl("C02.compat.listtype.eq", ["C02", "C03"], fn="ListType::eq", desc="PartialEq for ListType (the `lhs == rhs` shortcut in front of eq_complex): same three shapes, classless flags"),
-        Obl("C02.coerce.open", ["C02"], fn="ListType::try_coerce_to_open", desc="try_coerce_to_open: a fixed-shape list is treated as [T...] only if it is non-empty and EVERY adjacent pair of slots is compatible; T is slot 0"),
+        Obl("C02.coerce.open", ["C02", "C16"], fn="ListType::try_coerce_to_open", desc="try_coerce_to_open: a fixed-shape list is treated as [T...] only if it is non-empty and EVERY adjacent pair of slots is compatible; T is slot 0"),
     ]
     return gen, obls, log
 
 
-UNITS = [VUnit("c02_compat", ["C02", "C03"], "list arms of the type-compatibility test; coercion of fixed-shape lists to [T...]", build)]
+UNITS = [VUnit("c02_compat", ["C02", "C03", "C16"], "list arms of the type-compatibility test; coercion of fixed-shape lists to [T...]", build)]
 UNITS[0].assumes = ["fragment extraction: the three list arms of eq_complex are verified as functions of the bound variables (t1, t2, flags); the arms in front of them "
                     "(generics, ClassSelf) and the `lhs == rhs` shortcut are separate; the non-list arms (optionals, str) are not under contract",
                     "compat (the recursive eq_complex result on component types) is uninterpreted: the contracts are about how list compatibility is composed from it",
